@@ -282,9 +282,12 @@ class NetworkClient(KGLambda):
         From the KlongPy perspective, any outstanding remote calls will fail with the close_exception.
 
         """
-        for future in self.pending_responses.values():
-            future.set_exception(close_exception)
+        # call() registers futures from other threads: iterating the live dict while one is
+        # added raises RuntimeError and leaves the remaining callers waiting forever
+        futures = list(self.pending_responses.values())
         self.pending_responses.clear()
+        for future in futures:
+            future.set_exception(close_exception)
 
     def run_client(self):
         """
